@@ -1,5 +1,6 @@
 use verif_core::*;
 
+mod drive;
 mod props;
 
 fn main() {
